@@ -8,6 +8,8 @@ namespace Bardolph
 namespace Sim
 open Vm VmSteps Sem Gen
 
+variable {V : String → Prop}
+
 /-- not a routine marker (`ROUTINE` / `END`): what the loader looks for -/
 def Instr.plainI : Instr → Bool
   | .routine _ => false
@@ -124,7 +126,7 @@ theorem all_iterItems (items : List IterItem) (h : ∀ i ∈ items, ItemOK i) :
     rw [iterItems_cons, List.all_append, ih (fun j hj => h j (by simp [hj])), all_iterItem (h i (by simp))]
     rfl
 
-theorem nr_genLoop {hd : LoopHdr} (hh : LoopHdrOK hd) (body : Code) (hb : nr body = true) :
+theorem nr_genLoop {hd : LoopHdr} (hh : LoopHdrOK V hd) (body : Code) (hb : nr body = true) :
     nr (genLoop hd body) = true := by
   cases hd with
   | forever => exact nr_assembleLoop _ _ _ _ _ rfl rfl rfl hb rfl
@@ -180,7 +182,7 @@ theorem all_timePatterns (rest : List TP.Pat) :
   | cons q rest ih => simp only [List.map_cons, List.all_cons, ih, Bool.and_true]; rfl
 
 mutual
-  theorem nr_genStmt : ∀ (st : Stmt), FragStmt st → nr (genStmt st) = true
+  theorem nr_genStmt : ∀ (st : Stmt), FragStmt V st → nr (genStmt st) = true
     | .setReg r v, h => by simp only [genStmt, nr_ins]; exact nr_genRv h.2 _
     | .units m, _ => by simp only [genStmt, nr_ins]; rfl
     | .actAll k, _ => by cases k <;> (simp only [genStmt, nr_ins]; rfl)
@@ -226,11 +228,11 @@ mutual
       simp only [genStmt, nr_ins, List.all_append, nr_genOutArgs as h.1, Bool.true_and]; rfl
     | .stage rows cols cf, h => by
       simp only [genStmt, nr_ins, List.all_append, nr_genMatrixRanges h.1 h.2, Bool.true_and]; rfl
-  theorem nr_genBlock : ∀ (b : Block), FragBlock b → nr (genBlock b) = true
+  theorem nr_genBlock : ∀ (b : Block), FragBlock V b → nr (genBlock b) = true
     | .nil, _ => by simp only [genBlock]; rfl
     | .cons st rest, h => by
       simp only [genBlock, nr_append, nr_genStmt st h.1, nr_genBlock rest h.2, Bool.and_true]
-  theorem nr_genOperand : ∀ (o : Operand_), FragOperand o → nr (genOperand o) = true
+  theorem nr_genOperand : ∀ (o : Operand_), FragOperand V o → nr (genOperand o) = true
     | .light n, _ => by
       simp only [genOperand, nr_ins, List.all_cons, plain_genName, Bool.true_and]; rfl
     | .group n, _ => by
@@ -246,7 +248,7 @@ mutual
     | .matrixBlock n body, h => by
       simp only [genOperand, nr_append, nr_ins, List.all_cons, plain_genName, nr_genBlock body h,
         Bool.true_and, List.all_nil, Bool.and_true]; rfl
-  theorem nr_genOperands (k : ActKind) : ∀ (ops : Operands), FragOperands ops → nr (genOperands k ops) = true
+  theorem nr_genOperands (k : ActKind) : ∀ (ops : Operands), FragOperands V ops → nr (genOperands k ops) = true
     | .nil, _ => by simp only [genOperands]; rfl
     | .cons o rest, h => by
       simp only [genOperands, nr_append, nr_ins, nr_genOperand o h.1, nr_genOperands k rest h.2,
@@ -333,7 +335,7 @@ theorem all_resolve (c : Code) (pc : Nat) (ex : Int) : (resolve c pc ex).all Ins
     | i x => simp only [resolve, List.all_cons, ih, nr]
 
 /-- a compiled script of the fragment is loaded as it is -/
-theorem load_fragment (b : Block) (hb : FragBlock b) (code : List Instr)
+theorem load_fragment (b : Block) (hb : FragBlock V b) (code : List Instr)
     (hcode : Gen.genProgram b = some code) : Loader.load code = ⟨code.toArray, []⟩ := by
   apply load_plain
   have hres : resolve (genBlock b) 0 (0 : Nat) = code := resolve_of_mapM _ _ hcode 0 _
@@ -341,7 +343,7 @@ theorem load_fragment (b : Block) (hb : FragBlock b) (code : List Instr)
   exact nr_genBlock b hb
 
 /-- a block of the fragment defines no routines -/
-theorem collect_frag : ∀ (b : Block), FragBlock b → Sem.collect b = []
+theorem collect_frag : ∀ (b : Block), FragBlock V b → Sem.collect b = []
   | .nil, _ => rfl
   | .cons st rest, h => by
     have hr := collect_frag rest h.2
